@@ -76,6 +76,7 @@ type Contracts struct {
 	SpecCode []string // raw Go source blocks
 	Lemmas   []*Lemma
 	Guards   []GuardDecl
+	Closers  map[string]string // Type.field -> function that alone closes the channel stored there
 	ChanInv  map[string]string // element type -> "nonnil neverclosed"
 	FnTypes  map[string]*FuncContract
 }
@@ -105,7 +106,7 @@ func splitTags(s string) []string {
 
 var keywords = map[string]bool{"func": true, "mode": true, "props": true, "inline": true, "requires": true, "let": true,
 	"assigns": true, "ensures": true, "loop": true, "spec": true, "end": true, "lemma": true, "fntype": true,
-	"guard": true, "chan": true, "trusted": true, "safe": true, "shape": true, "note": true, "pure": true, "events": true, "freshresult": true, "maxpaths": true}
+	"guard": true, "chan": true, "closer": true, "trusted": true, "safe": true, "shape": true, "note": true, "pure": true, "events": true, "freshresult": true, "maxpaths": true}
 
 // contractLines extracts the //@ lines of a file together with positions.
 func contractLines(fset interface{ PositionString(p ast.Node) string }, f *ast.File, posOf func(*ast.Comment) string) (lines []string, poss []string) {
@@ -228,6 +229,16 @@ func ParseContracts(lines, poss []string) (*Contracts, error) {
 			}
 			cs.Lemmas = append(cs.Lemmas, lm)
 			lastLemma = lm
+			cur = nil
+		case "closer":
+			f := strings.Fields(rest)
+			if len(f) != 2 {
+				return nil, fmt.Errorf("%s: malformed closer declaration (closer Type.field function)", pos)
+			}
+			if cs.Closers == nil {
+				cs.Closers = map[string]string{}
+			}
+			cs.Closers[f[0]] = f[1]
 			cur = nil
 		case "chan":
 			f := strings.Fields(rest)
